@@ -177,6 +177,12 @@ func c07Run(c *mon.Ctx, r *mon.Rand) {
 	for _, id := range shared {
 		expectedKeys[id.key] = true
 	}
+	// the scope the others are derived from records too: requesting a closed
+	// child again must not disturb the parent it is requested from
+	rootCtr := root.Counter("rootc")
+	rootKey := mon.IdentKey("rootc", withRT(nil))
+	expectedKeys[rootKey] = true
+	var rootSum int64
 	hist := mon.NewHistRecorder()
 	var totalOps int64
 	c.Eval(1)
@@ -206,6 +212,10 @@ func c07Run(c *mon.Ctx, r *mon.Rand) {
 					recordHist := e < histEpochs && (!withSan || shards == 1)
 					for i := 0; i < opsPerEpoch; i++ {
 						atomic.AddInt64(&totalOps, 1)
+						if i%7 == 0 {
+							rootCtr.Inc(1)
+							atomic.AddInt64(&rootSum, 1)
+						}
 						if recordHist && wr.Chance(1, 4) {
 							// shared identity: Get, record, maybe Close
 							si := wr.Intn(2)
@@ -341,6 +351,10 @@ func c07Run(c *mon.Ctx, r *mon.Rand) {
 					ok = false
 				}
 			}
+		}
+		if got, want := agg[rootKey].Sum, atomic.LoadInt64(&rootSum); got != want {
+			c.Violation("bystander-harmed", map[string]interface{}{"why": fmt.Sprintf("epoch %d: the counter of the root scope (from which the closed and re-requested scopes are derived): delivered %d, incremented %d", e, got, want), "case": desc})
+			ok = false
 		}
 		for si, id := range shared {
 			if got, rec := agg[id.key].Sum, atomic.LoadInt64(&sharedSum[si]); got > rec || agg[id.key].Neg > 0 {
